@@ -40,8 +40,10 @@ ASSUMPTIONS = ['saturation_capacity 0 is treated like None by the code (`if satu
                'adc(int16 [[58]], gain=[0.5, 0, 1.25]) returns 0, not 97628); float overflow/rounding likewise not modelled',
                'floor is discontinuous: when the exact polynomial value is within 1e-9 (relative) of an integer a one-DN difference is '
                'accepted (NumPy float64 x**3 is not correctly rounded: 77.0**3 = 456532.99999999994)',
-               'adc_monotone: coefficients >= 0 and inputs >= 0 (a polynomial with an even power is not increasing on negatives); '
-               'for scalar/per-pixel gain >= 0 monotone on all inputs']
+               'adc_monotone: any gain curve non-decreasing on [0, cap] (hypothesis on the curve) and inputs >= 0 (a polynomial with an even '
+               'power is not increasing on negatives); for scalar/per-pixel gain >= 0 monotone on all inputs',
+               'a single photon slice (or 2-D image) given together with nw > 1 wavelengths/efficiencies is broadcast by einsum to '
+               'photons * sum(qe) instead of being refused: model and oracle follow the code; reported as questionable']
 
 UNITS = {'nm': Fr(1), 'um': Fr(1, 1000), 'm': Fr(1, 10**9), 'angstrom': Fr(10)}
 
@@ -80,7 +82,11 @@ def gen_collect(rng):
     nw = int(rng.integers(1, 5)); R, C = pick_shape(rng, 5)
     wave = _waves(rng, nw)
     two_d = nw == 1 and bool(rng.integers(0, 2))
-    return {'kind': 'collect', 'nw': nw, 'shape': [R, C], 'img': _cube(rng, nw, R, C), 'wave_nm': wave, 'two_d': two_d,
+    ns = nw
+    r = int(rng.integers(0, 10))
+    if r == 0 and nw >= 2: ns = 1; two_d = bool(rng.integers(0, 2))          # one slice / 2-D image against several efficiencies (broadcast by einsum)
+    elif r == 1 and nw >= 2: ns = nw + int(rng.choice([-1, 1])) if nw > 2 else nw + 1      # genuine mismatch -> ValueError
+    return {'kind': 'collect', 'nw': nw, 'ns': ns, 'shape': [R, C], 'img': _cube(rng, ns, R, C), 'wave_nm': wave, 'two_d': two_d,
             'waveunit': ['nm', 'um', 'm', 'angstrom'][int(rng.integers(0, 4))], 'qe': _qe(rng, nw, wave)}
 
 def gen_bayer(rng, d=None, os_=None, pattern=None):
@@ -159,19 +165,34 @@ def gen_adc(rng):
     signed_gain = rng.integers(0, 3) == 0
     co = rng.integers(-6 if signed_gain else 0, 17, cnt)
     gain = {'kind': gk, 'n': n, **_rat(co, 8)}
+    compressive = gk in ('poly', 'pixelpoly') and rng.integers(0, 3) == 0
     t = int(rng.integers(0, 5))
+    if compressive:
+        # increasing but compressive curve l*x - q*x^2 with q <= l/(2*cap): non-decreasing on [0, cap] although a coefficient is negative
+        capv = int(rng.choice([64, 128, 256])); l = int(rng.integers(1, 5)); n = 2
+        qmax = Fr(l, 2 * capv)
+        q = qmax / int(rng.choice([1, 2, 4]))
+        den = q.denominator
+        cnt = R * C if gk == 'pixelpoly' else 1
+        gain = {'kind': gk, 'n': 2, 'num': [-int(q * den)] * cnt + [l * den] * cnt, 'den': den}
+        img = _rat(rng.integers(0, 4 * capv + 40, R * C), 4) if not intframe else _rat(rng.integers(0, capv + 20, R * C), 1)
+        t = -1
     if t == 0: cap = None
     elif t == 1: cap = _rat([int(rng.integers(1, 120))], 1)
     elif t == 2: cap = _rat([int(rng.integers(1, 480))], 4)
     elif t == 3: cap = _rat([int(np.max(img['num'])) // img['den'] + int(rng.integers(0, 3))], 1)   # near the maximum
     else: cap = _rat([0], 1) if rng.integers(0, 3) == 0 else _rat([int(rng.integers(1, 60))], 1)
+    if compressive: cap = _rat([capv], 1)
     # NumPy integer overflow is outside the model (DESIGN §4): an int16 frame is only paired with powers that fit
     # (119**2 < 2**15 <= 58**3; witness of the excluded class: adc(int16 [[58]], [0.5, 0, 1.25]) = 0, not 97628)
     fdt = ['int64', 'int32', 'int16'][int(rng.integers(0, 3))] if intframe else 'float64'
-    if fdt == 'int16' and n > 2: fdt = 'int32'
+    if intframe:
+        top = max(abs(int(v)) for v in img['num']) ** max(n, gain['n'])
+        if fdt == 'int16' and top >= 2 ** 15: fdt = 'int32'
+        if fdt == 'int32' and top >= 2 ** 31: fdt = 'int64'
     c = {'kind': 'adc', 'shape': [R, C], 'img': img, 'intframe': bool(intframe),
          'frame_dtype': fdt,
-         'gain': gain, 'cap': cap, 'warn': bool(rng.integers(0, 2)), 'dtype': None}
+         'gain': gain, 'cap': cap, 'warn': bool(rng.integers(0, 2)), 'dtype': None, 'mono_curve': bool(compressive)}
     dn, _, _ = _adc_ref(c)
     mx = max(dn) + 1
     ok = [d for d in DTYPES if d is None or d.startswith('float') or mx <= np.iinfo(d).max]
@@ -220,6 +241,7 @@ def nontrivial(c):
 
 def tags(c):
     k = c['kind']; t = [k]
+    if k == 'collect' and c.get('ns', c['nw']) != c['nw']: t.append('collect:slices!=wavelengths' + (':broadcast' if c['ns'] == 1 else ':refused'))
     if k == 'collect': t += ['qe:' + c['qe']['kind'] + (':' + c['qe']['unit'] if c['qe']['kind'] == 'spectrum' else ''), 'waveunit:' + c['waveunit']]
     if k == 'bayer':
         t += [f"bayer:d={c['d']}", f"bayer:os={c['os']}"]
@@ -237,6 +259,7 @@ def tags(c):
         if w: t.append('adc:warns')
         g = _fr(c['gain'])
         if any(v < 0 for v in g): t.append('adc:negative-gain')
+        if c.get('mono_curve'): t.append('adc:compressive-increasing-curve')
     return t
 
 # ------------------------------------------------------------------------------------------ implementation
@@ -261,7 +284,7 @@ def impl(c):
     try:
         if k == 'collect':
             R, C = c['shape']
-            img = _np(c['img'], (c['nw'], R, C))
+            img = _np(c['img'], (c.get('ns', c['nw']), R, C))
             if c['two_d']: img = img[0]
             snap = img.tobytes(); img.flags.writeable = False
             out = D.collect_charge(img, _wave(c), _qe_obj(c['qe'], lentil), waveunit=c['waveunit'])
@@ -323,7 +346,7 @@ def _qe_req(q, wave_nm, nw):
 def requests(c, io):
     k = c['kind']
     if k == 'collect':
-        return [{'op': 'det.collect', 'nw': c['nw'], 'shape': c['shape'], 'img': c['img'], 'qe': _qe_req(c['qe'], c['wave_nm'], c['nw'])}]
+        return [{'op': 'det.collect', 'nw': c['nw'], 'ns': c.get('ns', c['nw']), 'shape': c['shape'], 'img': c['img'], 'qe': _qe_req(c['qe'], c['wave_nm'], c['nw'])}]
     if k == 'bayer':
         return [{'op': 'det.bayer', 'nw': c['nw'], 'shape': c['shape'], 'img': c['img'], 'd': c['d'], 'os': c['os'],
                  'pattern': c['pattern'].upper(), **{x: _qe_req(c[x], c['wave_nm'], c['nw']) for x in ('qe_r', 'qe_g', 'qe_b')}}]
@@ -383,10 +406,14 @@ def oracle(c, io):
         q = c['qe']
         if q['kind'] == 'vector' and len(q['num']) != c['nw']:
             return None if io.get('exc') == 'AssertionError' else 'QE vector of the wrong length accepted'
+        ns = c.get('ns', c['nw'])
+        if ns != c['nw'] and ns != 1:
+            return None if io.get('exc') == 'ValueError' else f"cube of {ns} slices accepted with {c['nw']} wavelengths"
         if 'exc' in io: return f"collect_charge raised {io['exc']}: {io.get('msg')}"
         if not io['untouched']: return 'collect_charge modified the photon cube'
         x = _fr(c['img']); qe = _qe_ref(q, c['wave_nm'], c['nw'])
-        want = [sum(x[l * R * C + p] * qe[l] for l in range(c['nw'])) for p in range(R * C)]
+        # (a single slice against nw > 1 efficiencies is broadcast by the code: photons * sum(qe) — accepted silently, reported)
+        want = [sum(x[(l if ns == c['nw'] else 0) * R * C + p] * qe[l] for l in range(c['nw'])) for p in range(R * C)]
         if io['shape'] != [R, C]: return f"result shape {io['shape']}"
         return _cmp_img(c, io['out'], want, 'collected charge is not sum_l photons*QE')
     if k == 'bayer':
@@ -431,9 +458,10 @@ def oracle(c, io):
     if io['dtype'] != want_dt: return f"output dtype {io['dtype']}, requested {want_dt}"
     # monotone for non-negative coefficients and inputs (global gain forms)
     g = c['gain']
-    if g['kind'] in ('scalar', 'poly') and all(v >= 0 for v in _fr(g)):
+    if (g['kind'] in ('scalar', 'poly') and all(v >= 0 for v in _fr(g))) or c.get('mono_curve'):
+        # (compressive cases: the same curve at every pixel, non-decreasing on [0, cap])
         x = _fr(c['img'])
-        pts = sorted((xv, int(d_)) for xv, d_ in zip(x, got) if xv >= 0 or g['n'] == 1)
+        pts = sorted((xv, int(d_)) for xv, d_ in zip(x, got) if xv >= 0 or (g['n'] == 1 and not c.get('mono_curve')))
         for (x1, d1), (x2, d2) in zip(pts, pts[1:]):
             if d1 > d2: return f'DN not monotone: {float(x1)} -> {d1}, {float(x2)} -> {d2}'
     return None
